@@ -65,7 +65,10 @@ Definition binds (R e : ty) : bool :=
   end.
 Definition ret_as (R e : ty) : option ty := if binds R e then Some R else None.
 (* deduced return types *)
-Definition ret_auto_lref (e : ty) : option ty := if is_lref e then Some e else None.              (* -> auto&  *)
+(* -> auto&: deduced like U& of a function template ([dcl.spec.auto]): an lvalue keeps its type; from a CONST rvalue U is
+   deduced as const A and the const lvalue reference binds to it; a non-const rvalue is ill-formed *)
+Definition ret_auto_lref (e : ty) : option ty :=
+  if is_lref e then Some e else if cst e then Some (mkty true RL) else None.
 Definition ret_auto_fwd (e : ty) : option ty := Some (if is_ref e then e else mkty (cst e) RR). (* -> auto&& *)
 Definition ret_decltype_auto (e : ty) : option ty := Some e.                                     (* -> decltype(auto), e a call *)
 
@@ -123,9 +126,9 @@ Definition forward_ovl2 (T e : ty) : option ty :=
   if binds P e then (if is_lref T then None (* static_assert *) else forward_body T P) else None.
 (* language ([over.ics.rank]): an rvalue argument prefers the rvalue-reference parameter whenever it can bind to it; an
    lvalue argument can only bind to the first overload *)
+Definition picks_rref_overload (X e : ty) : bool := negb (is_lref e) && binds (mkty (cst X) RR) e.   (* f(X&) vs f(X&&) *)
 Definition forward_m (T e : ty) : option ty :=
-  if is_lref e then forward_ovl1 T e
-  else if binds (mkty (cst T) RR) e then forward_ovl2 T e else forward_ovl1 T e.
+  if picks_rref_overload T e then forward_ovl2 T e else forward_ovl1 T e.
 
 Definition forward_like_m (T U : ty) : option ty :=
   let x := named U in                       (* U&& x *)
@@ -659,6 +662,11 @@ Definition notfn_static_m (v : Z) : bool := negb (v <? 0).
 Definition wrapcopy_m (x y : Z) : list Z * list bool * Z :=
   ([ (x + 1) * 1000 + y * 10 + 1; (x + 2) * 1000 + y * 10 + 2; (x + 2) * 1000 + y * 10 + 3; (x + 3) * 1000 + y * 10 + 4 ],
    [ negb (y <? x); negb (y <? x) ], x + 2).
+(* member pointers as targets (op ipfmem): inplace_function<i64(MX const&, i64)> f = &MX::get calls (obj.*pmf)(1) = obj.v + 1 through
+   invoke_r / invoke_memptr; inplace_function<i64(MX const&)> g = &MX::m reads the member (7).  A NULL member pointer takes the
+   is_member_pointer_v branch of inplace_function(T&&): no target (the emptiness bits are computed from the state machine:
+   OCtorNullFn / OAssignNullFn) *)
+Definition memptr_target_m (x : Z) : Z * Z := (x + 1, 7).
 (* a void signature: the thunk calls invoke_r<void>, which discards the result; three calls with x, x+1, x+2
    accumulate in the captured counter *)
 Definition void_ret_m (x : Z) : Z := x + (x + 1) + (x + 2).
@@ -704,8 +712,9 @@ Definition pair_ctor_fwd_m (K a : ty) : option built :=
   do e <- perfect_fwd a; init_elem K e.
 (* language ([over.match.best]): both take the argument by reference binding with an identity conversion; the non-template
    constructor wins only the tie, i.e. for a const lvalue argument; otherwise the forwarding template is the better match *)
+Definition picks_cref_over_template (a : ty) : bool := is_lref a && cst a.        (* f(T const&) vs template f(U&&), both viable *)
 Definition pair_ctor_m (K a : ty) : option built :=
-  if is_lref a && cst a then first_some (pair_ctor_cref_m K a) (pair_ctor_fwd_m K a)
+  if picks_cref_over_template a then first_some (pair_ctor_cref_m K a) (pair_ctor_fwd_m K a)
   else first_some (pair_ctor_fwd_m K a) (pair_ctor_cref_m K a).
 (* pair(pair<U1,U2> const& p) requires is_constructible_v<T1, U1 const&> : first(p.first) *)
 Definition pair_conv_copy_m (dk sk : ty) : option built := init_elem dk (member_lv true sk).
@@ -714,8 +723,9 @@ Definition pair_conv_move_m (dk sk : ty) : option built :=
   do e <- forward_e sk (member_lv false sk); init_elem dk e.
 (* language: a non-const rvalue source prefers the && overload when its constraint holds; everything else can only bind
    to the const& overload *)
+Definition picks_rref_template (sc : ty) : bool := negb (is_lref sc) && negb (cst sc).   (* template f(W<U> const&) vs f(W<U>&&) *)
 Definition pair_conv_ctor_m (dk sk sc : ty) : option built :=
-  if negb (is_lref sc) && negb (cst sc) then first_some (pair_conv_move_m dk sk) (pair_conv_copy_m dk sk)
+  if picks_rref_template sc then first_some (pair_conv_move_m dk sk) (pair_conv_copy_m dk sk)
   else pair_conv_copy_m dk sk.
 (* make_pair(T1&& t, T2&& u) -> pair<unwrap_ref_decay_t<T1>, ...> { return {etl::forward<T1>(t), etl::forward<T2>(u)}; } *)
 Definition make_pair_transfer_m (a : ty) : option built :=
@@ -737,7 +747,7 @@ Definition tuple_ctor_cref_m (K a : ty) : option built :=
     do e <- perfect_fwd (named P); init_elem K e
   else None.
 Definition tuple_ctor_m (K a : ty) : option built :=
-  if is_lref a && cst a then first_some (tuple_ctor_cref_m K a) (tuple_ctor_fwd_m K a)
+  if picks_cref_over_template a then first_some (tuple_ctor_cref_m K a) (tuple_ctor_fwd_m K a)
   else first_some (tuple_ctor_fwd_m K a) (tuple_ctor_cref_m K a).
 (* all elements: both constructors require sizeof...(Ts) == sizeof...(Args) *)
 Fixpoint tuple_ctor_all_m (Ks args : list ty) : option (list built) :=
